@@ -229,9 +229,15 @@ def affine_cases(draw):
     else:
         a = draw(gen.small_fracs())
         s = draw(st.builds(lambda x, y: F(x, y), st.integers(1, 12), st.integers(1, 7)))
+    order = draw(st.sampled_from(["shift-scale", "scale-shift", "ops"]))
+    land = draw(st.sampled_from([None, None, None, F(1, 10 ** 13), -F(1, 10 ** 15), F(1, 10 ** 20)]))
+    if num == "frac" and land is not None:
+        # the image of one knot lands a hair away from 0 (not on it): an exact knot is never "round-off of zero"
+        z = draw(st.sampled_from(U))
+        a = land - z if order == "shift-scale" else land - z * s
     return {"U": U, "p": p, "num": num, "a": a, "s": s, "P": draw(gen.ctrlpoints(n, draw(st.sampled_from([0, 2])))),
             "w": draw(st.one_of(st.none(), gen.pos_weights(n))),
-            "order": draw(st.sampled_from(["shift-scale", "scale-shift", "ops"])),
+            "order": order,
             "route": draw(st.sampled_from(["methods", "methods", "assign", "augmented"]))}
 
 
